@@ -33,6 +33,7 @@ class Seam:
         self.crash_at = []  # pending crash points: [role, 'before'|'after', k]
         self.fired = []
         self.fail_read = None  # (role, file name): the next read-open of that file by that role fails once
+        self.separate_hosts = False  # server and client on different machines: neither sees the other's directory
         self.on_event = None  # callback(rec) for property-level observation
         self.installed = False
         self.events = []
@@ -46,6 +47,7 @@ class Seam:
         self.crash_at = []
         self.fired = []
         self.fail_read = None
+        self.separate_hosts = False
         self.on_event = None
         self.events = []
 
@@ -55,6 +57,7 @@ class Seam:
         self.on_event = None
         self.crash_at = []
         self.fail_read = None
+        self.separate_hosts = False
 
     # ---- helpers
     def inscope(self, p):
@@ -68,6 +71,31 @@ class Seam:
             p = p.decode()
         p = os.path.abspath(p)
         return p.startswith(self.root + os.sep) and not p.startswith(self.logdir)
+
+    def hidden(self, path):
+        """separate-hosts deployment: is `path` on the other machine for the process that is running now?"""
+        if not self.separate_hosts or self.sim is None:
+            return False
+        p = PROC.get()
+        if p is None:
+            return False
+        try:
+            path = os.path.abspath(os.fspath(path))
+        except TypeError:
+            return False
+        if isinstance(path, bytes):
+            path = path.decode()
+        if not path.startswith(self.root + os.sep):
+            return False
+        rel = path[len(self.root) + 1:]
+        top = rel.split(os.sep, 1)[0]
+        if top == "log":
+            return False
+        if p.role == "server":
+            return top == "client"
+        if p.role == "client":
+            return top != "client"
+        return False
 
     def _site(self):
         """the repo handler on the stack (handle_* / close_service / clean_*), else the innermost repo function
@@ -198,6 +226,8 @@ class Seam:
         _pyio.os = px
 
         def sim_open(file, mode="r", buffering=-1, *a, **kw):
+            if seam.separate_hosts and not isinstance(file, int) and seam.hidden(file):
+                raise FileNotFoundError(2, "No such file or directory (other host)", os.fspath(file))
             fr = seam.fail_read
             if fr is not None and not isinstance(file, int) and not any(c in mode for c in "wax+") and seam.inscope(file):
                 p = PROC.get()
@@ -228,6 +258,8 @@ class Seam:
             real = _REAL[name]
 
             def f(path, *a, **kw):
+                if seam.separate_hosts and seam.hidden(path):
+                    raise FileNotFoundError(2, "No such file or directory (other host)", os.fspath(path))
                 if seam.inscope(path):
                     rec = seam.event(name if name != "remove" else "unlink", path)
                     r = real(path, *a, **kw)
@@ -247,6 +279,8 @@ class Seam:
             real = _REAL[name]
 
             def f(src, dst, *a, **kw):
+                if seam.separate_hosts and (seam.hidden(src) or seam.hidden(dst)):
+                    raise FileNotFoundError(2, "No such file or directory (other host)", os.fspath(dst))
                 if seam.inscope(dst) or seam.inscope(src):
                     rec = seam.event(name, dst)
                     r = real(src, dst, *a, **kw)
@@ -258,3 +292,52 @@ class Seam:
 
         os.replace = wrap2("replace")
         os.rename = wrap2("rename")
+
+        # what the other machine has is invisible in a separate-hosts deployment: stat fails, listings omit it
+        real_stat, real_lstat, real_listdir, real_scandir = os.stat, os.lstat, os.listdir, os.scandir
+
+        def s_stat(path, *a, **kw):
+            if seam.separate_hosts and not isinstance(path, int) and seam.hidden(path):
+                raise FileNotFoundError(2, "No such file or directory (other host)", os.fspath(path))
+            return real_stat(path, *a, **kw)
+
+        def s_lstat(path, *a, **kw):
+            if seam.separate_hosts and seam.hidden(path):
+                raise FileNotFoundError(2, "No such file or directory (other host)", os.fspath(path))
+            return real_lstat(path, *a, **kw)
+
+        def s_listdir(path="."):
+            names = real_listdir(path)
+            if seam.separate_hosts and not isinstance(path, int) and PROC.get() is not None:
+                names = [n for n in names if not seam.hidden(os.path.join(os.fspath(path), n if isinstance(n, str) else n.decode()))]
+            return names
+
+        class _Scan:
+            def __init__(self, it, base):
+                self.it, self.base = it, base
+
+            def __iter__(self):
+                return self
+
+            def __next__(self):
+                while True:
+                    e = next(self.it)
+                    if not seam.hidden(e.path):
+                        return e
+
+            def close(self):
+                self.it.close()
+
+            def __enter__(self):
+                return self
+
+            def __exit__(self, *exc):
+                self.close()
+
+        def s_scandir(path="."):
+            it = real_scandir(path)
+            if seam.separate_hosts and not isinstance(path, int) and PROC.get() is not None:
+                return _Scan(it, path)
+            return it
+
+        os.stat, os.lstat, os.listdir, os.scandir = s_stat, s_lstat, s_listdir, s_scandir
